@@ -19,7 +19,7 @@ try:
             line = f"{sid} NOAPPLY {a.stderr.strip()[:100]}"
         else:
             p = sid[:3]
-            c = sh("./check", p, cwd="/verif", env=dict(os.environ, ACMC_REPO=WT))
+            c = sh("./check", p, cwd="/verif", env=dict(os.environ, ACMC_REPO=WT, ACMC_MAX_GROUPS="1"))
             cl = sorted({l.split("clause=")[1].split(" ")[0] for l in c.stdout.splitlines() if "clause=" in l})
             line = f"{sid} rc={c.returncode} {','.join(cl[:4])}"
         print(line); out.write(line + "\n"); out.flush()
